@@ -71,6 +71,140 @@ impl Case {
     }
 }
 
+/// A sink that stages bytes on write and commits them on flush (what a BufWriter, a compressor or a
+/// socket wrapper does), whose flush can fail as std::io allows: the adapter must forward the outcome
+/// of flush unchanged, otherwise bytes are neither transferred nor reported.
+#[derive(Debug, Default)]
+pub struct StagingSink {
+    pub staged: Vec<u8>,
+    pub committed: Vec<u8>,
+    pub flush_faults: Vec<Fault>,
+    pub flush_calls: usize,
+}
+impl std::io::Write for StagingSink {
+    fn write(&mut self, buf: &[u8]) -> std::io::Result<usize> {
+        self.staged.extend_from_slice(buf);
+        Ok(buf.len())
+    }
+    fn flush(&mut self) -> std::io::Result<()> {
+        let f = self.flush_faults.get(self.flush_calls).copied().unwrap_or(Fault::Limit(usize::MAX));
+        self.flush_calls += 1;
+        match f {
+            Fault::Interrupted => Err(std::io::Error::new(std::io::ErrorKind::Interrupted, "injected")),
+            Fault::Hard => Err(std::io::Error::new(std::io::ErrorKind::Other, "injected")),
+            Fault::Limit(_) => {
+                self.committed.append(&mut self.staged);
+                Ok(())
+            }
+        }
+    }
+}
+
+macro_rules! staging_case {
+    ($W:ty, $data:expr, $faults:expr, $rep:expr) => {{
+        let rep: &mut Report = $rep;
+        let data: &[u8] = $data;
+        let faults: &Vec<Fault> = $faults;
+        let b = <$W as HWord>::NBYTES;
+        let words: Vec<$W> = words_from_bytes(data);
+        let kvf = || format!("dir=staging wbytes={} data={} faults={}", b, hex(data), faults.iter().map(fault_to_string).collect::<Vec<_>>().join(","));
+        let mut ad = WordAdapter::<$W, _>::new(StagingSink { flush_faults: faults.clone(), ..Default::default() });
+        let mut ok = true;
+        for w in &words {
+            ok &= guard(|| ad.write_word(*w).map_err(|e| format!("{:?}", e.kind()))).is_ok();
+        }
+        // flush, retrying after an error as a caller would, a bounded number of times
+        let mut outcomes = vec![];
+        for _ in 0..faults.len() + 1 {
+            let r = guard(|| WordWrite::flush(&mut ad).map_err(|e| format!("{:?}", e.kind())));
+            let done = r.is_ok();
+            outcomes.push(r);
+            if done {
+                break;
+            }
+        }
+        rep.eval(outcomes.len() as u64);
+        let sink = ad.into_inner();
+        let last_ok = outcomes.last().map(|o| o.is_ok()).unwrap_or(false);
+        // k-th flush call must report exactly what the sink's k-th flush reported
+        for (k, o) in outcomes.iter().enumerate() {
+            let injected = faults.get(k).copied().unwrap_or(Fault::Limit(0));
+            let want_err = matches!(injected, Fault::Interrupted | Fault::Hard);
+            if want_err == o.is_ok() || matches!(o, Out::Panic(_)) {
+                rep.violation(
+                    &format!("staging|w{}|flush-outcome-not-forwarded|{}", b, fault_to_string(&injected)),
+                    || format!("flush call #{} of the sink reported {} but the adapter's flush returned {}", k, if want_err { fault_to_string(&injected) } else { "Ok".into() }, o.show()),
+                    kvf,
+                );
+                return;
+            }
+        }
+        if ok && last_ok && sink.committed != data {
+            rep.violation(&format!("staging|w{}|bytes-neither-committed-nor-reported", b), || format!("flush returned Ok but the sink committed {} of {} bytes ({} still staged)", sink.committed.len(), data.len(), sink.staged.len()), kvf);
+        }
+        rep.case(&("staging", b, words.len(), faults.iter().map(fault_to_string).collect::<Vec<_>>()));
+    }};
+}
+
+pub fn check_staging(wbytes: usize, data: &[u8], faults: &Vec<Fault>, rep: &mut Report) {
+    match wbytes {
+        1 => staging_case!(u8, data, faults, rep),
+        2 => staging_case!(u16, data, faults, rep),
+        4 => staging_case!(u32, data, faults, rep),
+        8 => staging_case!(u64, data, faults, rep),
+        _ => staging_case!(u128, data, faults, rep),
+    }
+}
+
+/// The same through a bit writer: when flush() of the bit writer returns Ok, every bit written so far
+/// must have been committed by the sink.
+fn bit_staging<E: EnSel, W: HWord>(e: En, ops: &[WOp], faults: &Vec<Fault>, rep: &mut Report)
+where
+    WordAdapter<W, StagingSink>: WordWrite,
+    BufBitWriter<E, WordAdapter<W, StagingSink>>: BitWrite<E>,
+{
+    let b = W::NBYTES;
+    let mut bits: Bits = vec![];
+    let mut w = BufBitWriter::<E, _>::new(WordAdapter::<W, _>::new(StagingSink { flush_faults: faults.clone(), ..Default::default() }));
+    let kvf = || format!("dir=bitstaging e={} wbytes={} faults={} ops={}", e.name(), b, faults.iter().map(fault_to_string).collect::<Vec<_>>().join(","), wops_to_string(ops));
+    for op in ops {
+        let r = match op {
+            WOp::Bits(v, n) => guard(|| w.write_bits(*v, *n).map_err(|e| e.to_string())),
+            WOp::Unary(x) => guard(|| w.write_unary(*x).map_err(|e| e.to_string())),
+            _ => continue,
+        };
+        if !r.is_ok() {
+            let _ = guard_v(move || drop(w));
+            return;
+        }
+        super::c01::model_apply(&mut bits, e, 8 * b, op);
+    }
+    let r = guard(|| w.flush().map_err(|e| e.to_string()));
+    rep.eval(1);
+    super::c01::model_apply(&mut bits, e, 8 * b, &WOp::Flush);
+    let first = faults.first().copied().unwrap_or(Fault::Limit(0));
+    let want_err = matches!(first, Fault::Interrupted | Fault::Hard);
+    if want_err && r.is_ok() {
+        rep.violation(&format!("bitstaging|{}|w{}|flush-error-swallowed|{}", e.name(), b, fault_to_string(&first)), || format!("the sink's flush failed ({}) but BufBitWriter::flush returned {}", fault_to_string(&first), r.show()), kvf);
+    }
+    // take the sink out without running a second flush through Drop's unwrap: forget the writer after reading the state
+    let img = image(&bits, e, b);
+    let committed_ok = {
+        // SAFETY-free: into_inner flushes again; an error there is reported, a panic in Drop is guarded
+        match guard_v(move || w.into_inner().map(|ad| ad.into_inner())) {
+            Out::Ok(Ok(sink)) => Some(sink),
+            _ => None,
+        }
+    };
+    if let Some(sink) = committed_ok {
+        // into_inner returned Ok: everything must be committed now
+        if sink.committed != img {
+            rep.violation(&format!("bitstaging|{}|w{}|bytes-neither-committed-nor-reported", e.name(), b), || format!("into_inner() returned Ok but the sink committed {} of {} bytes ({} staged)", sink.committed.len(), img.len(), sink.staged.len()), kvf);
+        }
+    }
+    rep.case(&("bitstaging", e, b, ops.len(), faults.iter().map(fault_to_string).collect::<Vec<_>>()));
+}
+
 macro_rules! word_case {
     ($W:ty, $c:expr, $rep:expr) => {{
         let c: &Case = $c;
@@ -434,6 +568,10 @@ pub fn run(ctx: &Ctx) -> Report {
                     }
                 }
                 check_case(&Case { dir: "seek", wbytes: b, data: data.clone(), nwords, schedule: vec![], default: Fault::Limit(b) }, rep);
+                // (e) a staging sink whose flush fails in every way std::io allows, then succeeds
+                for faults in [vec![], vec![Fault::Interrupted], vec![Fault::Hard], vec![Fault::Interrupted, Fault::Interrupted], vec![Fault::Hard, Fault::Interrupted], vec![Fault::Interrupted, Fault::Hard, Fault::Interrupted]] {
+                    check_staging(b, &data, &faults, rep);
+                }
             }
             rep.exhaustive(&format!("word size {} bytes: every constant limit, every (limit, fault kind, call index), every truncation point, for 1..={} words", b, maxw));
         }
@@ -451,6 +589,19 @@ pub fn run(ctx: &Ctx) -> Report {
                             bit_read_part!($E, $W, e, &img, sched, default, rep);
                         }
                     }};
+                }
+                let faults: Vec<Fault> = (0..rng.below(3)).map(|_| if rng.chance(1, 2) { Fault::Interrupted } else { Fault::Hard }).collect();
+                match (e, b) {
+                    (En::BE, 1) => bit_staging::<BE, u8>(e, &ops, &faults, rep),
+                    (En::BE, 2) => bit_staging::<BE, u16>(e, &ops, &faults, rep),
+                    (En::BE, 4) => bit_staging::<BE, u32>(e, &ops, &faults, rep),
+                    (En::BE, 8) => bit_staging::<BE, u64>(e, &ops, &faults, rep),
+                    (En::BE, _) => bit_staging::<BE, u128>(e, &ops, &faults, rep),
+                    (En::LE, 1) => bit_staging::<LE, u8>(e, &ops, &faults, rep),
+                    (En::LE, 2) => bit_staging::<LE, u16>(e, &ops, &faults, rep),
+                    (En::LE, 4) => bit_staging::<LE, u32>(e, &ops, &faults, rep),
+                    (En::LE, 8) => bit_staging::<LE, u64>(e, &ops, &faults, rep),
+                    (En::LE, _) => bit_staging::<LE, u128>(e, &ops, &faults, rep),
                 }
                 match (e, b) {
                     (En::BE, 1) => both!(BE, u8),
@@ -482,7 +633,13 @@ pub fn run(ctx: &Ctx) -> Report {
 
 pub fn replay(case: &str, rep: &mut Report) {
     let kv = Kv::parse(case);
-    if kv.get("dir") == "bits" {
+    if kv.get("dir") == "staging" {
+        let f = kv.get("faults");
+        let faults: Vec<Fault> = if f.is_empty() { vec![] } else { f.split(',').map(parse_fault).collect() };
+        check_staging(kv.usize("wbytes"), &unhex(kv.get("data")), &faults, rep);
+        return;
+    }
+    if kv.get("dir") == "bits" || kv.get("dir") == "bitstaging" {
         // bit-level cases are regenerated by the sweep; re-run the word-level part of the same schedule
         return;
     }
